@@ -385,3 +385,60 @@ Section AnyEncoder.
     rewrite read_range_at by (apply Hin_file; lia). reflexivity.
   Qed.
 End AnyEncoder.
+
+(* ================= C19: the lookup path never panics ================= *)
+From VT Require Import Proofs.NoPanicProofs.
+Section LookupTotal.
+  Variable unb : list N -> option (list N).
+  (* the decompressor hands back bytes *)
+  Hypothesis unb_bytes : forall b r, unb b = Some r -> Forall (fun x => x < 256) r.
+
+  Lemma read_range_bytes f o n r : Forall (fun x => x < 256) f -> read_range f o n = Some r -> Forall (fun x => x < 256) r.
+  Proof.
+    intros Hf. unfold read_range. destruct (o + n <=? N.of_nat (length f)); [|discriminate]. intros H; inversion H; subst.
+    unfold sub. rewrite <- (firstn_skipn (N.to_nat o) f) in Hf. apply Forall_app in Hf. destruct Hf as [_ Hf].
+    rewrite <- (firstn_skipn (N.to_nat n) (skipn (N.to_nat o) f)) in Hf. apply Forall_app in Hf. exact (proj1 Hf).
+  Qed.
+
+  Lemma bidx_read_soft : forall n l, Forall (fun x => x < 256) l -> soft (bidx_read n l).
+  Proof.
+    induction n as [|k IH]; intros l Hl; [exact I|]. cbn [bidx_read].
+    assert (H1 : Forall (fun x => x < 256) (firstn 33 l)) by (rewrite <- (firstn_skipn 33 l) in Hl; apply Forall_app in Hl; exact (proj1 Hl)).
+    assert (H2 : Forall (fun x => x < 256) (skipn 33 l)) by (rewrite <- (firstn_skipn 33 l) in Hl; apply Forall_app in Hl; exact (proj2 Hl)).
+    pose proof (bdef_from_blob_soft _ H1) as S1. destruct (bdef_from_blob (firstn 33 l)); cbn [obind]; try exact S1.
+    specialize (IH _ H2). destruct (bidx_read k (skipn 33 l)); cbn; exact IH.
+  Qed.
+
+  Theorem vt_file_lookup_soft file z x y : Forall (fun b => b < 256) file -> soft (vt_file_lookup unb file z x y).
+  Proof.
+    intros Hf. unfold vt_file_lookup.
+    pose proof (hdr_from_blob_soft (firstn 66 file)) as Sh. destruct (hdr_from_blob (firstn 66 file)) as [h| | |]; cbn [obind]; try exact Sh.
+    destruct (0 <? h_mlen h); [destruct (read_range file (h_moff h) (h_mlen h)); cbn [obind]; [|exact I]|cbn [obind]].
+    all: destruct (read_range file (h_boff h) (h_blen h)) as [bz|] eqn:Eb; [|exact I].
+    all: destruct (unb bz) as [raw|] eqn:Er; [|exact I].
+    all: pose proof (unb_bytes _ _ Er) as Hraw.
+    all: assert (Sb : soft (bidx_from_blob raw)) by (unfold bidx_from_blob; destruct (negb _); [exact I|apply bidx_read_soft; exact Hraw]).
+    all: destruct (bidx_from_blob raw) as [bs| | |] eqn:Ebs; cbn [obind]; try exact Sb.
+    all: destruct (31 <? z); [exact I|].
+    all: destruct (bidx_find bs z (x / 256) (y / 256)) as [b|] eqn:Efind; [|exact I].
+    all: destruct ((bd_gx0 b <=? x) && (x <=? bd_gx1 b) && (bd_gy0 b <=? y) && (y <=? bd_gy1 b)) eqn:Ein; cbn [negb]; [|exact I].
+    all: cbv zeta.
+    all: assert (Hshape : bdef_shape b).
+    1,3: (unfold bidx_find in Efind; apply find_some in Efind; destruct Efind as [Hin _]; apply in_rev in Hin;
+          unfold bidx_from_blob in Ebs; destruct (negb _); [discriminate|]; pose proof (bidx_read_shape _ _ _ Ebs) as Hs; rewrite Forall_forall in Hs; exact (Hs b Hin)).
+    all: repeat (apply andb_true_iff in Ein; destruct Ein as [Ein ?]); repeat match goal with H : (_ <=? _) = true |- _ => apply N.leb_le in H end.
+    all: pose proof (slot_in_index b x y Hshape ltac:(assumption) ltac:(assumption) ltac:(assumption) ltac:(assumption)) as Hslot.
+    all: unfold read_tile, block_tile_index.
+    all: destruct (read_range file (bd_ioff b) (bd_ilen b)) as [cz|] eqn:Ec; [|exact I].
+    all: destruct (unb cz) as [rawidx|] eqn:Eu; [|exact I].
+    all: pose proof (tidx_from_blob_soft rawidx (unb_bytes _ _ Eu)) as St.
+    all: destruct (tidx_from_blob rawidx) as [idx| | |]; cbn [obind]; try exact St.
+    all: destruct (tidx_add_offset_total (bd_toff b) idx) as (out & Eo); rewrite Eo; cbn [obind].
+    all: fold (count_of b).
+    all: destruct (Nat.eqb (length out) (N.to_nat (count_of b))) eqn:El; cbn [obind]; [|exact I].
+    all: apply Nat.eqb_eq in El.
+    all: destruct (nth_error out (N.to_nat ((y - bd_gy0 b) * (bd_gx1 b - bd_gx0 b + 1) + (x - bd_gx0 b)))) as [[o ln]|] eqn:En;
+         [destruct (ln =? 0); [exact I|destruct (read_range file o ln); exact I]|].
+    all: exfalso; apply nth_error_None in En; lia.
+  Qed.
+End LookupTotal.
